@@ -117,7 +117,7 @@ PROPS = {
         exhaustive=True, assumptions=["in-process cases drive the real site::Reader through an in-memory genotype::Reader; CLI cases run the real binary on generated VCF text / BCF (noodles writer, or a hand-written BCF2.2 encoder for mixed ploidy) / BGZF", "noodles (VCF/BCF/BGZF parsing), clap and env_logger are exercised, not modelled"],
     ),
     "C12": dict(
-        theorems=["detect_magic", "pipeline_factors", "shape_by_lookup"],
+        theorems=["detect_magic", "prefix_schedule_free", "pipeline_factors", "containers_agree", "pipeline_factors_decoded", "same_calls_same_output", "shape_by_lookup"],
         nontrivial=r"^c12-same",
         rule="12 (thorough 60) call sets (up to 3000 records, with/without projection and sample lists, one ending in a ploidy error) each run as {vcf, vcf.gz, bcf, raw bcf} x {path, stdin} x threads {1,3,16} "
              "(thorough 1,2,3,4,8,16) x BGZF layouts (one line per block, random cuts incl. mid-line, interleaved empty blocks; thorough also single block / 9 even cuts) x 2 (thorough 3) repeated executions: "
